@@ -389,6 +389,17 @@ def main(tier):
         except Exception:
             pass
 
+    def snap_eval(name, v):
+        """the constants expression v evaluates to under the ISA's concrete states (None where it stays symbolic)"""
+        out = []
+        for st in states[name]:
+            try:
+                x = st(v)
+                out.append(x.v & ((1 << x.size) - 1) if getattr(x, "_is_cst", False) else None)
+            except Exception:
+                out.append(None)
+        return out
+
     def trial(name, bss, H):
         """fresh world; build map(B); evaluate; run H; re-evaluate the old map and a rebuilt one.
         returns None (unusable) | "unstable" | (R0, R1, R2, first dirtying step or None)"""
@@ -404,12 +415,46 @@ def main(tier):
         if evaluate(isas[name], m0, states[name]) != R0:
             # not stable under re-evaluation with NO history at all: a value-semantics matter (C13)
             return "unstable"
+        # expressions already computed: values read out of a second, running state map of the same block;
+        # the same-ISA "exec" steps of H are ALSO applied to that running map (an emulator executing on),
+        # and what was read before must keep evaluating to the same constants
+        snaps = []
+        try:
+            mrun = build(name, bss)
+            for loc, _ in mrun:
+                if loc._is_reg and len(snaps) < 12:
+                    v = mrun[loc]
+                    snaps.append((str(loc), v, snap_eval(name, v)))
+        except Exception:
+            mrun = None
         first = None
         for (hn, bs, what) in H:
             before = W.snap(inv)
             run_op(hn, bs, what)
             if first is None and W.diff(before):
                 first = (hn, bs, what)
+            if mrun is not None and hn == name and what == "exec" and snaps:
+                try:
+                    ins = decode_block(isas[name], [bs])
+                    if ins:
+                        ins[0](mrun)
+                except Exception:
+                    mrun = None
+                    continue
+                for (ls, v, e0) in snaps:
+                    e1 = snap_eval(name, v)
+                    bad = [k for k, (a, b) in enumerate(zip(e0, e1)) if a is not None and b is not None and a != b]
+                    if bad:
+                        ck.count("snapshot.changed")
+                        ck.report("C10:%s:snapshot:%s" % (name, ins[0].mnemonic),
+                                  "%s: the value read for %s from a state map after block %s no longer evaluates to %#x but to %#x once %s (%s) was executed on that state" % (
+                                      name, ls, [b.hex() for b in bss], e0[bad[0]], e1[bad[0]], ins[0].mnemonic, bs.hex()),
+                                  "oracle", "Amoco.Hist.Props.history_independence (an expression already computed keeps its meaning)",
+                                  case={"isa": name, "block": [b.hex() for b in bss], "history": [[h_[0], h_[1].hex(), h_[2]] for h_ in H], "location": ls},
+                                  real=e1, expected=e0)
+                        snaps = []
+                        break
+                ck.count("snapshot.checked")
         R1 = evaluate(isas[name], m0, states[name])          # the old map, after H
         before = W.snap(inv)
         try:
